@@ -250,7 +250,7 @@ fn check_document(origin: &str, ops: &[&'static str], text: &str, all_positions:
         }
         // definition / references parse the document on every call: on large documents every
         // third position plus all far-out ones, on small ones every position
-        if all_positions || pi % 3 == 0 || pi + 8 >= positions.len() || rng.chance(1, 8) {
+        if all_positions || pi % 3 == 0 || pi + 8 >= positions.len() || rng.chance(1, 16) {
             out.eval();
             match catch(std::panic::AssertUnwindSafe(|| varpulis_lsp::navigation::get_definition(text, pos, &uri))) {
                 Ok(Some(loc)) => {
@@ -317,7 +317,7 @@ fn main() {
     vplmut::install_silent_hook();
     watchdog("C43", args.pick(900, 7200));
     let mut rep = Report::new("C43", "exploration", &args);
-    rep.rule = format!("documents = chunks (<= 360 bytes quick / 700 thorough) of: {}; half of the documents additionally get 1-3 multi-byte characters at random places; lone CRs removed. Every document: diagnostics, semantic tokens, document symbols once; hover and completion at every (line 0..=last+1, character 0..=byte length+1) plus 8 far-out positions; definition and references at every position on documents <= 160 bytes, else at every third position, a random eighth and the far-out ones. Non-trivial: a (document, position) at which some positional handler returned a non-empty result, or a (document, whole-document handler) with a non-empty result; distinct by (document, position).", vplmut::describe());
+    rep.rule = format!("documents = chunks (<= 300 bytes quick / 700 thorough) of: {}; half of the documents additionally get 1-3 multi-byte characters at random places; lone CRs removed. Every document: diagnostics, semantic tokens, document symbols once; hover and completion at every (line 0..=last+1, character 0..=byte length+1) plus 8 far-out positions; a quarter of the documents are left well-formed; definition and references at every position on documents <= 120 bytes, else at every third position, a random sixteenth and the far-out ones. Non-trivial: a (document, position) at which some positional handler returned a non-empty result, or a (document, whole-document handler) with a non-empty result; distinct by (document, position).", vplmut::describe());
     rep.assume("a position is inside the document iff line <= last line (text split at '\\n'; a trailing newline opens a last empty line) and character <= that line's length in BYTES, the most permissive of bytes / UTF-16 units / chars; a range additionally needs start <= end");
     rep.assume("semantic tokens are decoded from their delta encoding; a token's range is (line, start)..(line, start+length)");
     rep.assume("the harness profile has overflow checks on: an arithmetic overflow inside a handler surfaces as a panic here");
@@ -336,7 +336,7 @@ fn main() {
     }
 
     let corp = vplmut::corpus(Path::new("/repo"));
-    let max_doc = args.pick(360usize, 700usize);
+    let max_doc = args.pick(300usize, 700usize);
     let chunks = std::sync::Arc::new(vplmut::chunks(&corp, max_doc));
     rep.set("corpus_texts", json!(corp.len()));
     rep.set("corpus_chunks", json!(chunks.len()));
@@ -344,35 +344,62 @@ fn main() {
         rep.inconclusive("corpus under /repo too small (examples/docs missing?)");
         std::process::exit(rep.finish());
     }
-    let threads = ncpu();
-    let docs_per_thread = args.pick(14usize, 400usize);
-    let ch = chunks.clone();
-    let parts = parallel(threads, args.seed, move |ti, mut rng| {
+    // one single-threaded worker PROCESS per core (see vplmut::run_workers for why)
+    let docs_per_worker = args.pick(16usize, 150usize);
+    if let Some(w) = args.opt("--worker").and_then(|x| x.parse::<u64>().ok()) {
+        let mut rng = Rng::new(args.seed).fork(w + 1);
+        let ch = chunks.clone();
         let mut out = Partial::default();
-        // two fixed documents first (thread 0): the empty one and a tiny multi-byte one
-        if ti == 0 {
-            for t in ["", "\n", "stream \u{e9}\u{e9} = \u{65e5}\u{672c}.where(x > 1)\n# \u{1F4A5} c\nlet v = \"\u{fc}\"", "stream S = E\n    .where(x >"] {
+        // fixed documents first (worker 0): the empty one, a tiny multi-byte one, an unfinished one
+        if w == 0 {
+            let over_limit = format!("let a = {}", "(".repeat(25));
+            for t in [
+                "",
+                "\n",
+                "stream \u{e9}\u{e9} = \u{65e5}\u{672c}.where(x > 1)\n# \u{1F4A5} c\nlet v = \"\u{fc}\"",
+                "stream S = E\n    .where(x >",
+                // a parse error located after a multi-byte character on its line
+                "let s = \"\u{e9}\u{e9}\u{e9}\u{e9}\u{e9}\u{e9}\u{e9}\u{e9}\u{e9}\" \u{65e5}",
+                // bracket nesting just over the parser's limit (an error without a token length)
+                over_limit.as_str(),
+                // a well-formed document with symbols to find
+                "event Tick:\n    price: float\n\nstream Big = Tick\n    .where(price > 10.0)\n    .emit(p: price)\n",
+            ] {
                 check_document("fixed", &[], t, true, &mut rng, &mut out);
             }
         }
-        for _ in 0..docs_per_thread {
+        for _ in 0..docs_per_worker {
             let (origin, seed_text) = &ch[rng.below(ch.len())];
-            let (mut t, ops) = vplmut::mutate(&mut rng, seed_text, max_doc + 200);
-            if rng.chance(1, 2) {
+            // a quarter of the documents stay well-formed (so that definition/references have symbols to
+            // find), half of those with multi-byte text only where the grammar allows it
+            let (mut t, ops) = if rng.chance(1, 4) {
+                let mut t = seed_text.clone();
+                if rng.chance(1, 2) {
+                    t = format!("# \u{1F4A5} \u{e9}t\u{e9}\nlet s_mb = \"\u{65e5}\u{672c} \u{fc}\"\n{}", t);
+                }
+                (t, vec!["none"])
+            } else {
+                vplmut::mutate(&mut rng, seed_text, max_doc + 200)
+            };
+            if ops != ["none"] && rng.chance(1, 2) {
                 t = insert_multibyte(&mut rng, &t);
             }
             let t = sanitize(&t);
-            let all = t.len() <= 160;
+            let all = t.len() <= 120;
             check_document(origin, &ops, &t, all, &mut rng, &mut out);
             if out.samples.len() < 2 && !t.is_ascii() && !ops.is_empty() {
                 out.sample(json!({"origin": origin, "mutations": ops, "document": t}));
             }
         }
-        out
-    });
+        out.add("panics_on_any_thread_incl_absorbed_parser_panics", vplmut::panic_count());
+        vplmut::worker_emit(&out);
+    }
+    let (parts, problems) = vplmut::run_workers(ncpu());
     for p in parts {
         rep.merge(p);
     }
-    rep.set("panics_on_any_thread_incl_absorbed_parser_panics", json!(vplmut::panic_count()));
+    for p in problems {
+        rep.inconclusive(&p);
+    }
     std::process::exit(rep.finish());
 }
